@@ -76,7 +76,11 @@ CLAIMED = {
                 'against handler chains); (3) exactly one bestmove per go: single printer, single call chain, must-pass/at-most-once in '
                 'doSearch, withheld until the ponder/infinite flags were tested false, searches handed over only after the previous '
                 'one was waited for; (4) no listener callback reachable after bestmove; (5) isready->waitReady->one readyok, every exit '
-                'of the protocol loop passes quit(), quit/EOF handling; (6) Parameters::set unreachable from the protocol thread. '
+                'of the protocol loop passes quit(), quit/EOF handling; (6) Parameters::set unreachable from the protocol thread; '
+                '(7)-(11) go-frame completeness, no blocking wait during a search, token look-ahead discipline, non-negative limits for '
+                'non-positive clocks, re-armed option wake-up; (12) every limit computed from the go reaches the search on every go path, '
+                'including ponder + ponderhit (found and fixed defect D11); (13) lock discipline of the session output stream: every '
+                'insertion holds one common mutex, which is never re-acquired or held across a wait (found and fixed defect D10). '
                 'Right level: these are exactly the failure shapes the property names (crash before initialisation, two/zero '
                 'bestmoves, output after bestmove), and they are visible in the shape of the code for all histories at once.',
         'design_ref': 'DESIGN.md section 2, C05',
